@@ -30,6 +30,9 @@ pub struct GenCfg {
     /// menus = every operator x every property (x every tagged property): the frontend's own
     /// operand-type rules decide which are accepted (C09 / C10 use this)
     pub full_menus: bool,
+    /// also generate deviations that make a query *invalid* (name collisions between outputs / tags,
+    /// ill-typed filters, undefined tags, unknown properties): only C10 (frontend never panics) wants them
+    pub invalid_devs: bool,
 }
 
 impl GenCfg {
@@ -40,7 +43,7 @@ impl GenCfg {
 
 impl Default for GenCfg {
     fn default() -> Self {
-        GenCfg { max_vertices: 4, max_depth: 3, recurse_depths: vec![1, 2, 3], wide_filters: false, naming_devs: true, allow: None, e_names: None, e_contents: vec![0, 1], tag_menu_cap: 0, full_menus: false }
+        GenCfg { max_vertices: 4, max_depth: 3, recurse_depths: vec![1, 2, 3], wide_filters: false, naming_devs: true, allow: None, e_names: None, e_contents: vec![0, 1], tag_menu_cap: 0, full_menus: false, invalid_devs: false }
     }
 }
 
@@ -477,7 +480,95 @@ pub fn deviations(schema: &SchemaModel, q: &Query, cfg: &GenCfg) -> Vec<Query> {
             }
         }
     }
+    if cfg.invalid_devs {
+        invalid_deviations(schema, q, &infos, &mut out);
+    }
     out
+}
+
+fn rename_in_dirs(ds: &mut [Dir], from: &str, to: &str, tags: bool) {
+    for d in ds.iter_mut() {
+        match d {
+            Dir::Output(Some(n)) if !tags && n == from => *n = to.to_string(),
+            Dir::Tag(Some(n)) if tags && n == from => *n = to.to_string(),
+            _ => {}
+        }
+    }
+}
+
+fn rename_everywhere(n: &mut Node, from: &str, to: &str, tags: bool) {
+    for it in n.items.iter_mut() {
+        match it {
+            Item::Prop(p) => rename_in_dirs(&mut p.dirs, from, to, tags),
+            Item::Edge(e) => {
+                if let Some(c) = e.count.as_mut() {
+                    rename_in_dirs(c, from, to, tags);
+                }
+                rename_everywhere(&mut e.node, from, to, tags);
+            }
+        }
+    }
+}
+
+fn collect_names(n: &Node, tags: bool, out: &mut Vec<String>) {
+    let mut take = |ds: &[Dir]| {
+        for d in ds {
+            match d {
+                Dir::Output(Some(x)) if !tags => out.push(x.clone()),
+                Dir::Tag(Some(x)) if tags => out.push(x.clone()),
+                _ => {}
+            }
+        }
+    };
+    for it in &n.items {
+        match it {
+            Item::Prop(p) => take(&p.dirs),
+            Item::Edge(e) => {
+                if let Some(c) = &e.count {
+                    take(c);
+                }
+            }
+        }
+    }
+    for it in &n.items {
+        if let Item::Edge(e) = it {
+            collect_names(&e.node, tags, out);
+        }
+    }
+}
+
+/// Deviations that make the query invalid; the frontend must answer with a typed error.
+fn invalid_deviations(schema: &SchemaModel, q: &Query, infos: &[NodeInfo], out: &mut Vec<Query>) {
+    // name collisions: make one explicit output (or tag) name equal to another one
+    for tags in [false, true] {
+        let mut names = vec![];
+        collect_names(&q.node, tags, &mut names);
+        names.dedup();
+        for a in &names {
+            for b in &names {
+                if a != b {
+                    let mut q2 = q.clone();
+                    rename_everywhere(&mut q2.node, b, a, tags);
+                    out.push(q2);
+                }
+            }
+        }
+    }
+    for ni in infos {
+        let pn = path_name(&ni.path);
+        // ill-typed filter, undefined tag, unknown property, each at every vertex
+        let mut q2 = q.clone();
+        if prop_type(schema, &ni.ty, "n").is_some() {
+            add_prop_dir(node_at_mut(&mut q2, &ni.path), "n", Dir::Filter { op: "has_prefix".into(), arg: Some(ArgRef::Var(format!("bad{pn}"))) });
+            out.push(q2);
+        }
+        let mut q2 = q.clone();
+        add_prop_dir(node_at_mut(&mut q2, &ni.path), if prop_type(schema, &ni.ty, "s").is_some() { "s" } else { "id" }, Dir::Filter { op: "=".into(), arg: Some(ArgRef::Tag("undefined_tag".into())) });
+        out.push(q2);
+        let mut q2 = q.clone();
+        node_at_mut(&mut q2, &ni.path).items.insert(0, Item::Prop(PropUse { name: "nope".into(), alias: None, dirs: vec![Dir::Output(Some(format!("zz{pn}")))] }));
+        out.push(q2);
+    }
 }
 
 pub fn fingerprint(q: &Query) -> u64 {
